@@ -82,6 +82,19 @@ func (c02) Gen(seed uint64, run int, tier string) *Plan {
 			p.Actions = append(p.Actions, Action{Kind: "checkin", B: d})
 			continue
 		}
+		if conc && nd > 1 && r.Intn(3) == 0 {
+			// every agent has tasks waiting and all of them check in at the same moment
+			for d := 0; d < nd; d++ {
+				for i := 0; i < 1+r.Intn(5); i++ {
+					p.Actions = append(p.Actions, task(d))
+				}
+			}
+			p.Actions = append(p.Actions, Action{Kind: "par", A: nd})
+			for d := 0; d < nd; d++ {
+				p.Actions = append(p.Actions, Action{Kind: "checkin", B: d})
+			}
+			continue
+		}
 		// a batch of 1..12 tasks of mixed argument types per agent, then the agents check in
 		for d := 0; d < nd; d++ {
 			if nd > 1 && r.Intn(4) == 0 {
